@@ -86,15 +86,15 @@ type stageObs struct {
 	pass     int // how many runs of this kind were made before, plus one
 	idx      int // position in the sequence
 	panicked bool
-	iss      []oissue  // pkVAP, pkVFC
-	refs     []oref    // pkSM: the merged references, by artifact identity
-	chain    []centry  // pkALL
+	iss      []oissue         // pkVAP, pkVFC
+	refs     []oref           // pkSM: the merged references, by artifact identity
+	chain    []centry         // pkALL
 	vni      validator.Issues // pkALL: the issues classified as issues of the log
-	post     [][]hrange // the backing arrays afterwards
-	changed  bool       // ... differ from before
-	foreign  string     // a write that is not an in-place sort of a slice
-	snap     []string   // what the log says afterwards
-	inChain  bool       // a part of validator.All().Validate, judged like a run of its own
+	post     [][]hrange       // the backing arrays afterwards
+	changed  bool             // ... differ from before
+	foreign  string           // a write that is not an in-place sort of a slice
+	snap     []string         // what the log says afterwards
+	inChain  bool             // a part of validator.All().Validate, judged like a run of its own
 }
 
 func (s stageObs) stageName() string {
@@ -175,7 +175,7 @@ func (f *hflow) splitChain(all validator.Issues, logIssues map[issueKey]bootengi
 			if !ok {
 				break
 			}
-			if !used[k] && li.Coords == is.Coords && li.Issue == is.Issue {
+			if !used[k] && sameIface(li.Coords, is.Coords) && sameIface(li.Issue, is.Issue) {
 				used[k] = true
 				id = k.step*100 + n
 				break
